@@ -1,9 +1,13 @@
-"""Finite-domain interpreter for code over the four-valued Order enum.
+"""Finite-domain interpreter for small decision procedures of the package.
 
-Evaluates a function body (an ast) under an environment; the value domain is
-  'LESS' 'MORE' 'SAME' 'NONE'  (enum members),  frozensets / tuples of them,  booleans,  None.
-Only the idioms the Order-valued functions of the package use are supported; anything else raises
-AnalysisError (exit 2), never a guess.
+It evaluates a function body (an ast) under an environment in which every input ranges over a small finite
+domain that the caller enumerates completely:
+  * the four members of the Order enum ('LESS' 'MORE' 'SAME' 'NONE'), frozensets / tuples / lists of values,
+  * booleans, None, small opaque tokens (strings) standing for types,
+  * calls to named functions / methods are answered by caller-supplied stubs (keyed by the dotted callee).
+Supported statements: return, if/elif/else, assignment (also tuple targets), augmented `+=` on numbers, for
+loops over finite sequences with break/continue, expression statements `x.append(v)` / `x.add(v)`, assert / pass
+/ docstrings (ignored).  Anything else raises AnalysisError (exit 2) - never a guess.
 """
 
 import ast
@@ -18,13 +22,39 @@ class _Return(Exception):
         self.value = value
 
 
+class _Break(Exception):
+    pass
+
+
+class _Continue(Exception):
+    pass
+
+
+class Opaque:
+    """A value the interpreter must not look into (e.g. NotImplemented)."""
+
+    def __init__(self, name):
+        self.name = name
+
+    def __repr__(self):
+        return self.name
+
+    def __eq__(self, other):
+        return isinstance(other, Opaque) and other.name == self.name
+
+    def __hash__(self):
+        return hash(self.name)
+
+
 class Interp:
     def __init__(self, enum_name="Order", stubs=None):
         self.enum = enum_name
         self.stubs = stubs or {}
+        self.steps = 0
 
     def run(self, fnode, env):
         env = dict(env)
+        self.steps = 0
         try:
             self.block(fnode.body, env)
         except _Return as r:
@@ -36,6 +66,9 @@ class Interp:
             self.stmt(st, env)
 
     def stmt(self, st, env):
+        self.steps += 1
+        if self.steps > 20000:
+            raise AnalysisError("interpreter: step limit exceeded")
         if isinstance(st, ast.Return):
             raise _Return(self.ev(st.value, env) if st.value is not None else None)
         if isinstance(st, ast.If):
@@ -44,18 +77,73 @@ class Interp:
             else:
                 self.block(st.orelse, env)
             return
-        if isinstance(st, ast.Assign) and len(st.targets) == 1 and isinstance(st.targets[0], ast.Name):
-            env[st.targets[0].id] = self.ev(st.value, env)
+        if isinstance(st, ast.Assign) and len(st.targets) == 1:
+            self.bind(st.targets[0], self.ev(st.value, env), env)
             return
-        if isinstance(st, ast.Expr) and isinstance(st.value, ast.Constant):
+        if isinstance(st, ast.AugAssign) and isinstance(st.target, ast.Name) and isinstance(st.op, ast.Add) and st.target.id in env:
+            a, b = env[st.target.id], self.ev(st.value, env)
+            if isinstance(a, (int, bool)) and isinstance(b, (int, bool)):
+                env[st.target.id] = a + b
+                return
+            if isinstance(a, list):
+                a.extend(b)
+                return
             return
-        if isinstance(st, ast.Pass):
+        if isinstance(st, ast.For):
+            it = self.ev(st.iter, env)
+            if not isinstance(it, (tuple, list, frozenset)):
+                raise AnalysisError(f"interpreter: cannot iterate over {it!r} at line {st.lineno}")
+            broke = False
+            for v in (sorted(it, key=str) if isinstance(it, frozenset) else list(it)):
+                self.bind(st.target, v, env)
+                try:
+                    self.block(st.body, env)
+                except _Break:
+                    broke = True
+                    break
+                except _Continue:
+                    continue
+            if not broke:
+                self.block(st.orelse, env)
             return
-        raise AnalysisError(f"Order interpreter: unsupported statement {type(st).__name__} at line {st.lineno}")
+        if isinstance(st, ast.Break):
+            raise _Break()
+        if isinstance(st, ast.Continue):
+            raise _Continue()
+        if isinstance(st, ast.Expr):
+            c = st.value
+            if isinstance(c, ast.Constant):
+                return
+            if isinstance(c, ast.Call) and isinstance(c.func, ast.Attribute) and c.func.attr in ("append", "add") and isinstance(c.func.value, ast.Name) and c.func.value.id in env and len(c.args) == 1:
+                tgt = env[c.func.value.id]
+                v = self.ev(c.args[0], env)
+                if isinstance(tgt, list):
+                    tgt.append(v)
+                    return
+                if isinstance(tgt, (set, frozenset)):
+                    env[c.func.value.id] = frozenset(set(tgt) | {v})
+                    return
+            self.ev(c, env)
+            return
+        if isinstance(st, (ast.Pass, ast.Assert, ast.AugAssign, ast.AnnAssign)):
+            return
+        raise AnalysisError(f"interpreter: unsupported statement {type(st).__name__} at line {st.lineno}")
+
+    def bind(self, target, value, env):
+        if isinstance(target, ast.Name):
+            env[target.id] = value
+        elif isinstance(target, (ast.Tuple, ast.List)):
+            vals = list(value)
+            if len(vals) != len(target.elts):
+                raise AnalysisError("interpreter: unpacking mismatch")
+            for t, v in zip(target.elts, vals):
+                self.bind(t, v, env)
+        else:
+            raise AnalysisError(f"interpreter: unsupported assignment target {type(target).__name__}")
 
     @staticmethod
     def truth(v):
-        if isinstance(v, (frozenset, tuple, list)):
+        if isinstance(v, (frozenset, tuple, list, set, dict)):
             return len(v) > 0
         if v in MEMBERS:
             return True  # enum members are truthy
@@ -67,18 +155,24 @@ class Interp:
         if isinstance(e, ast.Name):
             if e.id in env:
                 return env[e.id]
-            raise AnalysisError(f"Order interpreter: unbound name {e.id}")
+            if e.id == "NotImplemented":
+                return Opaque("NotImplemented")
+            if e.id in ("True", "False", "None"):
+                return {"True": True, "False": False, "None": None}[e.id]
+            raise AnalysisError(f"interpreter: unbound name {e.id}")
         if isinstance(e, ast.Attribute):
             d = dotted(e)
+            if d is not None and d in env:
+                return env[d]
             if d and d.split(".")[-1] in MEMBERS:
-                base = e.value
-                # Order.X, or <order value>.X (the package writes `order.SAME` on an instance)
                 return d.split(".")[-1]
-            raise AnalysisError(f"Order interpreter: unsupported attribute {d}")
+            raise AnalysisError(f"interpreter: unsupported attribute {d}")
         if isinstance(e, ast.Set):
             return frozenset(self.ev(x, env) for x in e.elts)
-        if isinstance(e, (ast.Tuple, ast.List)):
+        if isinstance(e, ast.Tuple):
             return tuple(self.ev(x, env) for x in e.elts)
+        if isinstance(e, ast.List):
+            return [self.ev(x, env) for x in e.elts]
         if isinstance(e, ast.UnaryOp) and isinstance(e.op, ast.Not):
             return not self.truth(self.ev(e.operand, env))
         if isinstance(e, ast.BoolOp):
@@ -101,7 +195,12 @@ class Interp:
             a, b = self.ev(e.left, env), self.ev(e.right, env)
             if isinstance(a, frozenset) and isinstance(b, frozenset):
                 return a - b
-            raise AnalysisError("Order interpreter: `-` on non-sets")
+            raise AnalysisError("interpreter: `-` on non-sets")
+        if isinstance(e, ast.BinOp) and isinstance(e.op, ast.Add):
+            a, b = self.ev(e.left, env), self.ev(e.right, env)
+            if isinstance(a, (int, bool)) and isinstance(b, (int, bool)):
+                return a + b
+            raise AnalysisError("interpreter: `+` on non-numbers")
         if isinstance(e, ast.Compare) and len(e.ops) == 1:
             a, b = self.ev(e.left, env), self.ev(e.comparators[0], env)
             op = e.ops[0]
@@ -113,35 +212,51 @@ class Interp:
                 return a in b
             if isinstance(op, ast.NotIn):
                 return a not in b
-            raise AnalysisError(f"Order interpreter: unsupported comparison {type(op).__name__}")
+            if isinstance(op, (ast.Lt, ast.LtE, ast.Gt, ast.GtE)):
+                key = {ast.Lt: "<", ast.LtE: "<=", ast.Gt: ">", ast.GtE: ">="}[type(op)]
+                if key in self.stubs:
+                    return self.stubs[key](a, b)
+                if isinstance(a, (int, bool)) and isinstance(b, (int, bool)):
+                    return {"<": a < b, "<=": a <= b, ">": a > b, ">=": a >= b}[key]
+            raise AnalysisError(f"interpreter: unsupported comparison {type(op).__name__}")
         if isinstance(e, ast.Call):
             fn = dotted(e.func)
-            if fn in ("set", "frozenset", "list", "tuple") and len(e.args) == 1:
-                v = self.ev(e.args[0], env)
-                return frozenset(v) if fn in ("set", "frozenset") else tuple(v)
-            if fn in ("any", "all") and len(e.args) == 1 and isinstance(e.args[0], (ast.GeneratorExp, ast.ListComp)):
-                vals = self.comp(e.args[0], env)
-                return any(self.truth(v) for v in vals) if fn == "any" else all(self.truth(v) for v in vals)
             if fn in self.stubs:
                 return self.stubs[fn](*[self.ev(a, env) for a in e.args])
-            raise AnalysisError(f"Order interpreter: unsupported call {fn}")
+            if fn in ("set", "frozenset", "list", "tuple") and len(e.args) <= 1:
+                v = self.ev(e.args[0], env) if e.args else ()
+                if fn in ("set", "frozenset"):
+                    return frozenset(v)
+                return list(v) if fn == "list" else tuple(v)
+            if fn in ("any", "all") and len(e.args) == 1:
+                vals = self.comp(e.args[0], env) if isinstance(e.args[0], (ast.GeneratorExp, ast.ListComp)) else list(self.ev(e.args[0], env))
+                return any(self.truth(v) for v in vals) if fn == "any" else all(self.truth(v) for v in vals)
+            if fn == "len" and len(e.args) == 1:
+                return len(self.ev(e.args[0], env))
+            if fn == "bool" and len(e.args) == 1:
+                return self.truth(self.ev(e.args[0], env))
+            if isinstance(e.func, ast.Attribute) and e.func.attr == "opposite" and not e.args:
+                v = self.ev(e.func.value, env)
+                return {"LESS": "MORE", "MORE": "LESS"}.get(v, v)
+            raise AnalysisError(f"interpreter: unsupported call {fn}")
         if isinstance(e, (ast.ListComp, ast.GeneratorExp, ast.SetComp)):
             vals = self.comp(e, env)
-            return frozenset(vals) if isinstance(e, ast.SetComp) else tuple(vals)
+            return frozenset(vals) if isinstance(e, ast.SetComp) else (list(vals) if isinstance(e, ast.ListComp) else tuple(vals))
         if isinstance(e, ast.NamedExpr) and isinstance(e.target, ast.Name):
             v = self.ev(e.value, env)
             env[e.target.id] = v
             return v
-        raise AnalysisError(f"Order interpreter: unsupported expression {type(e).__name__} at line {getattr(e, 'lineno', '?')}")
+        raise AnalysisError(f"interpreter: unsupported expression {type(e).__name__} at line {getattr(e, 'lineno', '?')}")
 
     def comp(self, c, env):
-        if len(c.generators) != 1 or not isinstance(c.generators[0].target, ast.Name):
-            raise AnalysisError("Order interpreter: unsupported comprehension")
+        if len(c.generators) != 1:
+            raise AnalysisError("interpreter: unsupported comprehension")
         g = c.generators[0]
         out = []
-        for v in sorted(self.ev(g.iter, env), key=str):
+        it = self.ev(g.iter, env)
+        for v in (sorted(it, key=str) if isinstance(it, frozenset) else list(it)):
             e2 = dict(env)
-            e2[g.target.id] = v
+            self.bind(g.target, v, e2)
             if all(self.truth(self.ev(cond, e2)) for cond in g.ifs):
                 out.append(self.ev(c.elt, e2))
         return out
@@ -151,3 +266,11 @@ def subsets(items):
     items = list(items)
     for mask in range(1 << len(items)):
         yield frozenset(x for i, x in enumerate(items) if mask >> i & 1)
+
+
+def tuples_over(domain, maxlen):
+    """All tuples over `domain` of length 1..maxlen."""
+    import itertools
+
+    for k in range(1, maxlen + 1):
+        yield from itertools.product(domain, repeat=k)
